@@ -14,7 +14,8 @@ func init() {
 		ID:    "C08",
 		Title: "the policy statement applied is the one scoped to the artifact's repository",
 		Run:   runC08,
-		Explain: "Statements are followed by role and dataflow: a value denotes element i of the document's TrustPolicies (its address, the element loaded, or the range variable's copy); what is known about it is the set of branch facts between the point where that element is taken and the point where it is remembered / cloned (facts of one iteration), composed through boolean module helpers, helpers answering with an enumeration constant, predicate closures (captured variables replaced by their only value) and slices.IndexFunc. " +
+		Explain: "Statements are followed by role and dataflow: a value denotes element i of the document's TrustPolicies (its address, the element loaded, or the range variable's copy); what is known about it is the set of branch facts between the point where that element is taken and the point where it is remembered / cloned (facts of one iteration), composed through boolean module helpers, predicate closures (captured variables replaced by their only value) and slices.IndexFunc. " +
+			"A test of a held value against a constant — the answer of a module classifier (function, method, closure; an enumeration constant or one of several flags), a variable of the iteration that holds such an answer, constants or a flag — stands for the facts that held when the assignment executed last gave it that constant: the value is followed through the variables (phis) that hold it to the assignments, each judged where it is made (on-the-spot return, result variable, answer accumulated over a loop, answer of another classifier handed on, flag assigned from a condition); a variable that may still hold a value from before the current statement came to life, or a classifier that writes to what its parameters reach, is not followed. " +
 			"A candidate may also be remembered by its position in the list (an integer variable, 'none' = a negative constant; also returned by a scan helper): the element at that position is the statement remembered, provided the document is not written between remembering and use. " +
 			"(a) OCI selection: in the method or in the module helper it hands the document to, a statement (its clone, a pointer to it that is cloned before it is returned, or its position) becomes the exact candidate only under equality-membership (slices.Contains, an element compared with ==, slices.Index found) of a value derived from the reference in that statement's own registryScopes, the wildcard candidate only under membership of the constant '*'; " +
 			"that value is reference[:LastIndex(reference,\"@\")] (LastIndexByte '@' alike), and every success exit of the method lies behind 'separator found' and 'format validated' for it; the loop has no early exit; " +
@@ -494,8 +495,9 @@ func c08OCI(c *Ctx) {
 	// the current statement or a pointer to it (cloned later, see returns-clone) — is judged at the point of
 	// assignment with the facts of that iteration: the statement (STMT) must be an element of the document's list and
 	// the assignment must lie behind the true edge of slices.Contains(STMT.RegistryScopes, x). Whether the test is
-	// written inline, in a boolean helper (engine) or in a helper answering with an enumeration constant
-	// (c08EnumFacts) makes no difference: the fact is the same label in the loop's frame.
+	// written inline, in a boolean helper (engine), in a classifier answering with an enumeration constant or a pair of
+	// flags, or kept in a variable of the iteration before it is acted on (c08EdgeFacts / c08ValueIsFacts) makes no
+	// difference: the fact is the same label in the loop's frame.
 	wantDoc := "param:" + SEL.Params[0].Name() + ".TrustPolicies"
 	R := newC08Resolver(w)
 	var exactPhi, wildPhi *ssa.Phi
